@@ -778,11 +778,27 @@ func refOfflineUUID(name string) uuid.UUID {
 	return uuid.UUID(h)
 }
 
+type listedClient struct{ kicked bool }
+
+func (l *listedClient) SendDisconnect(chat.Message) { l.kicked = true }
+
 func ping(c *vm.Ctx, r *vm.Rand) {
 	maxPlayers, vName, vProto, motdText, motdBold := r.Range(1, 100), "verif-"+genNames(r), r.Intn(1000), "hello "+genNames(r), r.Bool()
 	pl := server.NewPlayerList(maxPlayers)
 	motd := chat.Message{Text: motdText, Bold: motdBold, Color: chat.Gold}
 	pi := server.NewPingInfo(vName, vProto, motd, nil)
+	// players already on the server: none, a few, exactly the 10 a status sample may list, and more than that
+	nJoin := []int{0, 0, 1, 3, 9, 10, 11, 12, 25}[r.Intn(9)]
+	joined := map[string]string{} // id -> name
+	for k := 0; k < nJoin; k++ {
+		ps := server.PlayerSample{Name: fmt.Sprintf("p%d-%s", k, genNames(r)), ID: uuid.UUID{byte(k + 1), byte(r.Intn(256)), 3}}
+		before := pl.Len()
+		pl.ClientJoin(&listedClient{}, ps)
+		if pl.Len() > before {
+			joined[ps.ID.String()] = ps.Name
+		}
+	}
+	online := min(nJoin, maxPlayers)
 	srv := &server.Server{ListPingHandler: listPing{pl, pi}, LoginHandler: &server.MojangLoginHandler{Threshold: -1}, ConfigHandler: cfgHandler{}, GamePlay: &gamePlay{done: make(chan struct{})}}
 	l, err := mcnet.ListenMC("127.0.0.1:0")
 	if err != nil {
@@ -820,8 +836,33 @@ func ping(c *vm.Ctx, r *vm.Rand) {
 	if motdBold {
 		md = fmt.Sprintf(`{"text":%q,"bold":true,"color":"gold"}`, motdText)
 	}
-	want := fmt.Sprintf(`{"version":{"name":%q,"protocol":%d},"players":{"max":%d,"online":0,"sample":[]},"description":%s}`, vName, vProto, maxPlayers, md)
+	want := fmt.Sprintf(`{"version":{"name":%q,"protocol":%d},"players":{"max":%d,"online":%d},"description":%s}`, vName, vProto, maxPlayers, online, md)
 	json.Unmarshal([]byte(want), &wantV)
+	// the sample: at most 10 of the players that are on, each once, with their own names
+	if gm, ok := gotV.(map[string]any); ok {
+		if pm, ok := gm["players"].(map[string]any); ok {
+			sample, _ := pm["sample"].([]any)
+			delete(pm, "sample")
+			seen := map[string]bool{}
+			for _, e := range sample {
+				em, _ := e.(map[string]any)
+				id, _ := em["id"].(string)
+				name, _ := em["name"].(string)
+				if joined[id] != name || name == "" || seen[id] {
+					c.Violation("ping/sample-entry", fmt.Sprintf("status sample lists %v, which is not one of the %d players on the server (or is listed twice)", e, len(joined)), wit())
+					return
+				}
+				seen[id] = true
+			}
+			if len(sample) != min(online, 10) {
+				c.Violation("ping/sample-size", fmt.Sprintf("%d players are on, the status sample lists %d (expected %d)", online, len(sample), min(online, 10)), wit())
+				return
+			}
+			if online > 10 {
+				c.Cover("ping.more-than-10-players-online")
+			}
+		}
+	}
 	if !reflect.DeepEqual(gotV, wantV) {
 		c.Violation("ping/status-json-differs", fmt.Sprintf("status JSON %s differs from what the status handlers were constructed with: %s", data, want), wit())
 		return
